@@ -5,4 +5,7 @@ import "github.com/thanos-io/thanos/verifharness/hlib"
 
 var props []*hlib.Prop
 
-func main() { hlib.Main(props) }
+func main() {
+	defer e2eCleanup() // temp dirs of the end-to-end stores
+	hlib.Main(props)
+}
